@@ -129,3 +129,22 @@ Example stop_before_serve_refuted :
 Proof. vm_compute. repeat split. Qed.
 Example stop_while_binding_fixed : stop_returns (lrun true [LServeBegin; LBindFail; LStop; LBindFail]) = true.
 Proof. vm_compute. reflexivity. Qed.
+
+(* the drain step of a hand-over (C17): the established connections are kept - also the one Accept has only just
+   returned: accepting is one step of the model, the harness makes the drain arrive right after it -, the listening socket
+   is closed, nothing more is accepted, and Serve returns as soon as the kept connections have ended by themselves *)
+Lemma drain_step s : let d := lstep true s LDrain in
+  lconns d = lconns s /\ bound d = false /\ lstep true d LAccept = d /\ lstopped d = lstopped s /\ phase d = phase s.
+Proof.
+  destruct s as [ph bg st dr bd c dn sw]. cbn [lstep phase begun lstopped ldraining bound lconns done_closed stop_waits mk].
+  repeat split. cbn [lstep phase begun lstopped ldraining bound lconns done_closed stop_waits mk].
+  rewrite andb_false_r. reflexivity.
+Qed.
+
+Lemma drain_then_serve_returns s : phase s = PServing ->
+  phase (lstep true (fold_left (lstep true) (repeat LConnEnd (lconns s)) (lstep true s LDrain)) LServeExit) = PReturned.
+Proof.
+  intros P. destruct (drain_step s) as [C [B [_ [_ Ph]]]]. set (d := lstep true s LDrain) in *.
+  destruct (conn_ends (lconns s) d C) as [A [Z [Bd _]]]. set (e := fold_left (lstep true) (repeat LConnEnd (lconns s)) d) in *.
+  cbn [lstep]. rewrite A, Ph, P, Bd, B, Z. reflexivity.
+Qed.
